@@ -44,6 +44,60 @@ theorem name_hostOK {b : UInt8} (hb : nameByte b = true) : hostByteOK b = true :
 theorem digit_hostOK {b : UInt8} (hb : isDigitB b = true) : hostByteOK b = true := by
   unfold hostByteOK; simp [hb]
 
+theorem alpha_not_ctl (b : UInt8) (h : isAlphaB b = true) : isCtlB b = false := by
+  simp only [isAlphaB, isCtlB, Bool.or_eq_true, Bool.and_eq_true, decide_eq_true_eq, Bool.or_eq_false_iff,
+    decide_eq_false_iff_not, UInt8.le_iff_toNat_le, UInt8.lt_iff_toNat_lt, ← UInt8.toNat_inj] at *
+  have e1 : (65 : UInt8).toNat = 65 := rfl
+  have e2 : (90 : UInt8).toNat = 90 := rfl
+  have e3 : (97 : UInt8).toNat = 97 := rfl
+  have e4 : (122 : UInt8).toNat = 122 := rfl
+  have e5 : (32 : UInt8).toNat = 32 := rfl
+  have e6 : (127 : UInt8).toNat = 127 := rfl
+  simp only [e1, e2, e3, e4, e5, e6] at *
+  omega
+
+theorem digit_not_ctl (b : UInt8) (h : isDigitB b = true) : isCtlB b = false := by
+  simp only [isDigitB, isCtlB, Bool.or_eq_true, Bool.and_eq_true, decide_eq_true_eq, Bool.or_eq_false_iff,
+    decide_eq_false_iff_not, UInt8.le_iff_toNat_le, UInt8.lt_iff_toNat_lt, ← UInt8.toNat_inj] at *
+  have e1 : (48 : UInt8).toNat = 48 := rfl
+  have e2 : (57 : UInt8).toNat = 57 := rfl
+  have e5 : (32 : UInt8).toNat = 32 := rfl
+  have e6 : (127 : UInt8).toNat = 127 := rfl
+  simp only [e1, e2, e5, e6] at *
+  omega
+
+theorem name_not_ctl (b : UInt8) (h : nameByte b = true) : isCtlB b = false := by
+  simp only [nameByte, Bool.or_eq_true, decide_eq_true_eq] at h
+  rcases h with ((h | h) | h) | h
+  · exact alpha_not_ctl b h
+  · exact digit_not_ctl b h
+  · subst h; decide
+  · subst h; decide
+
+theorem escScan_no_pct (okEsc : UInt8 → UInt8 → Bool) (okByte : UInt8 → Bool) :
+    ∀ s : Bytes, (∀ b ∈ s, b ≠ 37 ∧ okByte b = true) → escScan okEsc okByte s = true
+  | [], _ => rfl
+  | [c], h => by simp [escScan, (h c (by simp)).1, (h c (by simp)).2]
+  | [c, d], h => by
+    simp [escScan, (h c (by simp)).1, (h c (by simp)).2, (h d (by simp)).1, (h d (by simp)).2]
+  | c :: a :: b :: rest, h => by
+    have := escScan_no_pct okEsc okByte (a :: b :: rest) (fun x hx => h x (by simp [hx]))
+    simp [escScan, (h c (by simp)).1, (h c (by simp)).2, this]
+
+theorem unescapeB_no_pct : ∀ s : Bytes, (∀ b ∈ s, b ≠ 37) → unescapeB s = s
+  | [], _ => rfl
+  | [_], _ => rfl
+  | [_, _], _ => rfl
+  | c :: a :: b :: rest, h => by
+    have := unescapeB_no_pct (a :: b :: rest) (fun x hx => h x (by simp [hx]))
+    simp [unescapeB, h c (by simp), this]
+
+theorem name_ne_pct {b : UInt8} (hb : nameByte b = true) : b ≠ 37 := by
+  intro h; subst h; revert hb; decide
+
+theorem digit_ne_pct {b : UInt8} (hb : isDigitB b = true) : b ≠ 37 := by
+  intro h; subst h; revert hb; decide
+
 /-- `parseHost` on `name` and on `name:port` -/
 theorem parseHost_name (h : Bytes) (hh : ∀ b ∈ h, nameByte b = true) : parseHost h = some h := by
   have hhead : h.head? ≠ some lbrack := by
@@ -52,10 +106,12 @@ theorem parseHost_name (h : Bytes) (hh : ∀ b ∈ h, nameByte b = true) : parse
     | cons x xs => simp; exact (name_ne (hh x (by simp))).2.2.2.2.2
   have hcol : lastIndexOfB colon h = none :=
     lastIndexOfB_none colon h (fun b hb => (name_ne (hh b hb)).2.2.2.2.1)
-  have hall : h.all hostByteOK = true := List.all_eq_true.2 (fun b hb => name_hostOK (hh b hb))
+  have hesc : escHost h = true :=
+    escScan_no_pct _ _ h (fun b hb => ⟨name_ne_pct (hh b hb), by simp [name_hostOK (hh b hb)]⟩)
+  have hun : unescapeB h = h := unescapeB_no_pct h (fun b hb => name_ne_pct (hh b hb))
   unfold parseHost
   rw [if_neg hhead, hcol]
-  simp [hall]
+  simp [hesc, hun]
 
 theorem parseHost_name_port (h ds : Bytes) (hh : ∀ b ∈ h, nameByte b = true) (hne : h ≠ [])
     (hd : ∀ b ∈ ds, isDigitB b = true) : parseHost (h ++ colon :: ds) = some (h ++ colon :: ds) := by
@@ -68,23 +124,27 @@ theorem parseHost_name_port (h ds : Bytes) (hh : ∀ b ∈ h, nameByte b = true)
   have hdrop : (h ++ colon :: ds).drop h.length = colon :: ds := by simp
   have hport : validOptionalPort (colon :: ds) = true := by
     simp [validOptionalPort]; exact hd
-  have hall : (h ++ colon :: ds).all hostByteOK = true := by
-    apply List.all_eq_true.2
+  have hbytes : ∀ b ∈ h ++ colon :: ds, b ≠ 37 ∧ hostByteOK b = true := by
     intro b hb
-    simp at hb
-    rcases hb with hb | hb | hb
-    · exact name_hostOK (hh b hb)
-    · subst hb; decide
-    · exact digit_hostOK (hd b hb)
+    rcases List.mem_append.1 hb with hb | hb
+    · exact ⟨name_ne_pct (hh b hb), name_hostOK (hh b hb)⟩
+    · simp only [List.mem_cons] at hb
+      rcases hb with hb | hb
+      · subst hb; exact ⟨by decide, by decide⟩
+      · exact ⟨digit_ne_pct (hd b hb), digit_hostOK (hd b hb)⟩
+  have hesc : escHost (h ++ colon :: ds) = true :=
+    escScan_no_pct _ _ _ (fun b hb => ⟨(hbytes b hb).1, by simp [(hbytes b hb).2]⟩)
+  have hun : unescapeB (h ++ colon :: ds) = h ++ colon :: ds :=
+    unescapeB_no_pct _ (fun b hb => (hbytes b hb).1)
   unfold parseHost
   rw [if_neg hhead, hcol]
-  simp [hdrop, hport, hall]
+  simp [hdrop, hport, hesc, hun]
 
 /-- **serialised origins parse to what they say**: for a scheme of letters and an authority `a`
     without `#`, `?`, `/`, `@`, `url.Parse(scheme ++ "://" ++ a)` has the lower-cased scheme and
     the host `parseHost a` (an error if that is one). -/
 theorem urlParse_scheme_authority (sch a : Bytes) (hs : ∀ b ∈ sch, isAlphaB b = true) (hsne : sch ≠ [])
-    (ha : ∀ b ∈ a, b ≠ 35 ∧ b ≠ 63 ∧ b ≠ slash ∧ b ≠ 64) :
+    (ha : ∀ b ∈ a, b ≠ 35 ∧ b ≠ 63 ∧ b ≠ slash ∧ b ≠ 64) (hctl : ∀ b ∈ a, isCtlB b = false) :
     urlParse (sch ++ colon :: slash :: slash :: a) =
       match parseHost a with
       | some h => ⟨true, asciiLower sch, h⟩
@@ -119,11 +179,36 @@ theorem urlParse_scheme_authority (sch a : Bytes) (hs : ∀ b ∈ sch, isAlphaB 
       · exact (ha b hb).2.1)
   have hsl : beforeB slash a = a := beforeB_of_absent _ _ (fun b hb => (ha b hb).2.2.1)
   have hat : lastIndexOfB 64 a = none := lastIndexOfB_none 64 a (fun b hb => (ha b hb).2.2.2)
-  unfold urlParse
-  rw [hhash]
-  simp only [hstar, if_false, hscheme, hq]
+  have hfrag : afterB 35 (sch ++ colon :: slash :: slash :: a) = [] := by
+    simp [afterB, cutAt_none 35 _ (hno 35 (fun b hb => (alpha_ne (hs b hb)).1) (by decide) (by decide) (fun b hb => (ha b hb).1))]
+  have hnoctl : (sch ++ colon :: slash :: slash :: a).any isCtlB = false := by
+    cases hc : (sch ++ colon :: slash :: slash :: a).any isCtlB with
+    | false => rfl
+    | true =>
+      obtain ⟨b, hb, hcb⟩ := List.any_eq_true.1 hc
+      rcases List.mem_append.1 hb with hb | hb
+      · rw [alpha_not_ctl b (hs b hb)] at hcb; cases hcb
+      · simp only [List.mem_cons] at hb
+        rcases hb with hb | hb | hb | hb
+        · subst hb; revert hcb; decide
+        · subst hb; revert hcb; decide
+        · subst hb; revert hcb; decide
+        · rw [hctl b hb] at hcb; cases hcb
   have hpre : hasPrefix (slash :: slash :: a) [slash, slash] = true := by simp [hasPrefix, List.isPrefixOf]
-  simp only [hpre, if_true, List.drop_succ_cons, List.drop_zero, hsl, parseAuthority, hat]
-  rfl
+  have hrem : (a.drop a.length) = [] := by simp
+  unfold urlParse
+  rw [hhash, hfrag]
+  have hmain : urlParseNoFrag (sch ++ colon :: slash :: slash :: a) =
+      match parseHost a with
+      | some h => ⟨true, asciiLower sch, h⟩
+      | none => ⟨false, [], []⟩ := by
+    unfold urlParseNoFrag
+    simp only [hnoctl, hstar, if_false, hscheme, hq, hpre, if_true, List.drop_succ_cons, List.drop_zero, hsl,
+      parseAuthority, hat, hrem, Bool.false_eq_true]
+    cases parseHost a with
+    | none => rfl
+    | some h => simp [escAny, escScan]
+  rw [hmain]
+  simp [escAny, escScan]
 
 end CaddyModel.C13
